@@ -20,7 +20,7 @@ func (c07) NumCases(tier string) int {
 	if tier == "thorough" {
 		return 1_500_000
 	}
-	return 19_000
+	return 17_000
 }
 
 func (c07) Describe() CheckInfo {
